@@ -34,6 +34,16 @@ LIKS = ["gaussian", "fixed", "fixed+learned"]
 FLAGSETS = [(), ("fast_pred_var",), ("attached",), ("attached", "fast_pred_var")]
 FORMS = ["plain", "own", "shared", "newf_own", "lowdim"]
 TOL = 1e-8
+TOL_INTERP = 1e-6          # KISS-GP / WISKI path: Lanczos-free here but the caches are low-rank updates; measured 5e-9
+MT_TASKS = 2
+
+
+def ntask(h):
+    return h.get("mt", 0) or 1
+
+
+def tol_of(h):
+    return TOL_INTERP if h["kernel"] == "kiss_rbf" else TOL
 
 
 class GP(gpytorch.models.ExactGP):
@@ -43,6 +53,17 @@ class GP(gpytorch.models.ExactGP):
 
     def forward(self, x):
         return gpytorch.distributions.MultivariateNormal(self.mean_module(x), self.covar_module(x))
+
+
+class MTGP(gpytorch.models.ExactGP):
+    """multitask exact GP: joint prior over (point, task), interleaved (point-major) layout"""
+
+    def __init__(self, x, y, lik, mean, kern):
+        super().__init__(x, y, lik)
+        self.mean_module, self.covar_module = mean, kern
+
+    def forward(self, x):
+        return gpytorch.distributions.MultitaskMultivariateNormal(self.mean_module(x), self.covar_module(x))
 
 
 class _multi:
@@ -65,6 +86,9 @@ def flag_ctx(flags):
         cms.append(gs.fast_pred_var(True))
     if "attached" in flags:
         cms.append(gs.detach_test_caches(False))
+    elif "nodetach_nograd" in flags:
+        cms.append(gs.detach_test_caches(False))
+        cms.append(torch.no_grad())
     else:
         cms.append(torch.no_grad())
     return _multi(*cms)
@@ -97,10 +121,22 @@ def make_kernel(name, d, b, rng):
         m = a + c
     elif name == "ard_rbf":
         m = k.RBFKernel(ard_num_dims=d, batch_shape=B); m.lengthscale = ls(1, d)
+    elif name == "kiss_rbf":     # KISS-GP: InterpolatedPredictionStrategy (WISKI fantasy update); d = 1, no batch
+        g = k.GridInterpolationKernel(k.RBFKernel(), grid_size=24, grid_bounds=[(-6.0, 6.0)])
+        g.base_kernel.lengthscale = rnd_tensor(rng, (1, 1), 0.8, 2.0)
+        m = k.ScaleKernel(g); m.outputscale = rnd_tensor(rng, (), 0.4, 2.5)
+    elif name == "mt_rbf":       # multitask: data kernel carries the model batch, task kernel (rank 1) is shared
+        m = k.MultitaskKernel(k.RBFKernel(batch_shape=B), num_tasks=MT_TASKS, rank=1)
+        m.data_covar_module.lengthscale = ls(1, 1)
+        m.task_covar_module.covar_factor.data = rnd_tensor(rng, (MT_TASKS, 1), -1.0, 1.0)
+        m.task_covar_module.var = rnd_tensor(rng, (MT_TASKS,), 0.3, 1.5)
     return m
 
 
-def make_mean(name, d, b, rng):
+def make_mean(name, d, b, rng, mt=0):
+    if mt:
+        return gpytorch.means.MultitaskMean([make_mean("constant" if name == "zero" else name, d, b, rng) for _ in range(mt)],
+                                            num_tasks=mt)
     B = torch.Size(b)
     if name == "zero":
         return gpytorch.means.ZeroMean(batch_shape=B)
@@ -136,23 +172,29 @@ def point_pool(rng, count, d):
     return pts
 
 
-def gen_history(rng, tier):
+def gen_history(rng, tier, family="default"):
     """exact rational arithmetic on float64-derived entries costs ~10 ms per operation at N=6, so the
-    total number of training points after all updates is capped (5 quick / 7 thorough)"""
+    total number of training ROWS after all updates is capped (5 quick / 7 thorough; multitask: rows = points x tasks,
+    capped at 6 / 8).
+    family: default (DefaultPredictionStrategy, single output) | mt (multitask kernel + likelihood) | kiss (KISS-GP:
+    InterpolatedPredictionStrategy / WISKI update)"""
     thorough = tier != "quick"
     nmax = 7 if thorough else 5
-    d = rng.choice([1, 2])
-    b = rng.choice([(), (), (2,)])
-    depth = rng.choice([1, 1, 2, 2, 3])
+    mt = MT_TASKS if family == "mt" else 0
+    if mt:
+        nmax = 4 if thorough else 3
+    d = rng.choice([1, 2]) if family != "kiss" else 1
+    b = rng.choice([(), (), (2,)]) if family != "kiss" else ()
+    depth = rng.choice([1, 1, 2, 2, 3]) if not mt else rng.choice([1, 1, 2])
     n0 = rng.randint(1, nmax - depth)
-    t = rng.randint(1, 2 if not thorough else 3)
-    lik = rng.choice(LIKS)
+    t = rng.randint(1, 2 if not thorough else 3) if not mt else 1
+    lik = rng.choice(LIKS) if family == "default" else ("multitask" if mt else "gaussian")
     steps, cur, nnew = [], b, 0
     for k in range(depth):
         forms = ["plain", "own"]
-        if nnew < (1 if not thorough else 2) and shape_numel(cur) <= 2:
+        if nnew < (1 if not thorough else 2) and shape_numel(cur) <= 2 and family != "kiss":
             forms += ["shared", "newf_own", "shared", "newf_own"]
-        if len(cur) == 1:
+        if len(cur) == 1 and family != "kiss":
             forms.append("lowdim")
         form = rng.choice(forms)
         room = nmax - n0 - sum(s_["m"] for s_ in steps) - (depth - k - 1)
@@ -171,13 +213,21 @@ def gen_history(rng, tier):
     take = lambda k: [pool.pop() for _ in range(k)]  # noqa: E731
     yv = lambda k: [rng.randint(-16, 16) / 8.0 for _ in range(k)]  # noqa: E731
     nv = lambda k: [rng.randint(4, 48) / 64.0 for _ in range(k)]  # noqa: E731   noise in [1/16, 3/4]
-    h = dict(d=d, b=list(b), n0=n0, t=t, lik=lik, kernel=rng.choice(KERNELS if d == 2 else [k for k in KERNELS if k != "ard_rbf"]),
-             mean=rng.choice(MEANS), flags=list(rng.choice(FLAGSETS)), hseed=rng.randint(0, 10 ** 9),
-             X0=take(shape_numel(b) * n0), y0=yv(shape_numel(b) * n0), noise0=nv(shape_numel(b) * n0),
+    flagsets = FLAGSETS
+    if family == "kiss":
+        # a KISS-GP model that predicted with autograd enabled cannot be deep-copied (the grid kernel caches a non-leaf
+        # tensor; get_fantasy_model raises and, since fix 5e27225, restores the source): a fresh fantasy call raises as
+        # well, so this is outside "supported"; detach_test_caches(False) is exercised under no_grad instead
+        flagsets = [(), ("fast_pred_var",), ("nodetach_nograd",), ("nodetach_nograd", "fast_pred_var")]
+    kernel = {"mt": "mt_rbf", "kiss": "kiss_rbf"}.get(family) or rng.choice(KERNELS if d == 2 else [k for k in KERNELS if k != "ard_rbf"])
+    T = mt or 1
+    h = dict(d=d, b=list(b), n0=n0, t=t, lik=lik, kernel=kernel, mt=mt,
+             mean=rng.choice(MEANS), flags=list(rng.choice(flagsets)), hseed=rng.randint(0, 10 ** 9),
+             X0=take(shape_numel(b) * n0), y0=yv(shape_numel(b) * n0 * T), noise0=nv(shape_numel(b) * n0),
              Xs=take(t), steps=steps)
     for s in steps:
         s["X"] = take(shape_numel(s["in_batch"]) * s["m"])
-        s["y"] = yv(shape_numel(s["tg_batch"]) * s["m"])
+        s["y"] = yv(shape_numel(s["tg_batch"]) * s["m"] * T)
         # shared inputs: one covariance update serves all fantasies, so the fixed noise is shared too
         # (a per-fantasy noise with shared inputs is rejected by cat_rows with a RuntimeError: unsupported)
         s["nz_batch"] = s["in_batch"] if s["form"] == "shared" else s["tg_batch"]
@@ -189,7 +239,14 @@ def build(h):
     rng = random.Random(h["hseed"])
     b, d, n0 = tuple(h["b"]), h["d"], h["n0"]
     X0 = torch.tensor(h["X0"]).reshape(b + (n0, d))
-    y0 = torch.tensor(h["y0"]).reshape(b + (n0,))
+    y0 = torch.tensor(h["y0"]).reshape(b + (n0,) + tdim(h))
+    if h["lik"] == "multitask":
+        lik = gpytorch.likelihoods.MultitaskGaussianLikelihood(num_tasks=h["mt"], rank=0, batch_shape=torch.Size(b))
+        lik.noise = rnd_tensor(rng, b + (1,), 0.06, 0.4)
+        lik.task_noises = rnd_tensor(rng, b + (h["mt"],), 0.05, 0.5)
+        model = MTGP(X0, y0, lik, make_mean(h["mean"], d, b, rng, mt=h["mt"]), make_kernel(h["kernel"], d, b, rng))
+        model.eval(); lik.eval()
+        return model, lik
     if h["lik"] == "gaussian":
         lik = gpytorch.likelihoods.GaussianLikelihood(batch_shape=torch.Size(b))
         lik.noise = rnd_tensor(rng, b + (1,), 0.06, 0.7)
@@ -204,10 +261,15 @@ def build(h):
     return model, lik
 
 
+def tdim(h):
+    """trailing task dimension of targets / means ((T,) for multitask, () otherwise)"""
+    return (h["mt"],) if h.get("mt") else ()
+
+
 def step_tensors(h, s):
     d = h["d"]
     X = torch.tensor(s["X"]).reshape(tuple(s["in_batch"]) + (s["m"], d))
-    y = torch.tensor(s["y"]).reshape(tuple(s["tg_batch"]) + (s["m"],))
+    y = torch.tensor(s["y"]).reshape(tuple(s["tg_batch"]) + (s["m"],) + tdim(h))
     nz = torch.tensor(s["noise"]).reshape(tuple(s.get("nz_batch", s["tg_batch"])) + (s["m"],))
     return X, y, nz
 
@@ -217,18 +279,27 @@ def bcast(x, batch, tail):
     return x.expand(tuple(batch) + tuple(x.shape[len(x.shape) - tail:]))
 
 
+def can_bcast(x, batch, tail):
+    try:
+        bcast(x, batch, tail)
+        return True
+    except RuntimeError:
+        return False
+
+
 def spec_data(h, k):
     """specification of the training set after k updates, broadcast to the batch shape after step k:
     inputs (B, N, d), targets (B, N), specified fixed noise (B, N)"""
     B = tuple(h["steps"][k - 1]["tg_batch"]) if k > 0 else tuple(h["b"])
     b, d, n0 = tuple(h["b"]), h["d"], h["n0"]
+    yt = 1 + len(tdim(h))              # trailing (non-batch) dims of the targets
     Xs = [bcast(torch.tensor(h["X0"]).reshape(b + (n0, d)), B, 2)]
-    ys = [bcast(torch.tensor(h["y0"]).reshape(b + (n0,)), B, 1)]
+    ys = [bcast(torch.tensor(h["y0"]).reshape(b + (n0,) + tdim(h)), B, yt)]
     ns = [bcast(torch.tensor(h["noise0"]).reshape(b + (n0,)), B, 1)]
     for s in h["steps"][:k]:
         X, y, nz = step_tensors(h, s)
-        Xs.append(bcast(X, B, 2)); ys.append(bcast(y, B, 1)); ns.append(bcast(nz, B, 1))
-    return B, torch.cat(Xs, -2), torch.cat(ys, -1), torch.cat(ns, -1)
+        Xs.append(bcast(X, B, 2)); ys.append(bcast(y, B, yt)); ns.append(bcast(nz, B, 1))
+    return B, torch.cat(Xs, -2), torch.cat(ys, -yt), torch.cat(ns, -1)
 
 
 # --------------------------------------------------------------------------- implementation side
@@ -304,6 +375,11 @@ def carried(fm):
 def fresh_model(h, src_model, k):
     """an ExactGP with the same hyperparameters trained from scratch on the data after k updates"""
     B, X, y, nz = spec_data(h, k)
+    if h["lik"] == "multitask":
+        lik = copy.deepcopy(src_model.likelihood)
+        m = MTGP(X.clone(), y.clone(), lik, copy.deepcopy(src_model.mean_module), copy.deepcopy(src_model.covar_module))
+        m.eval(); lik.eval()
+        return m
     if h["lik"] == "gaussian":
         lik = copy.deepcopy(src_model.likelihood)
     else:
@@ -330,7 +406,7 @@ def run_impl(h):
             Xs_prev = bcast(Xs0, Bprev, 2)
             snap = source_snapshot(cur, Xs_prev)
             X, y, nz = step_tensors(h, s)
-            kw = {} if h["lik"] == "gaussian" else dict(noise=nz)
+            kw = {} if h["lik"] in ("gaussian", "multitask") else dict(noise=nz)
             fm = cur.get_fantasy_model(X, y, **kw)
             car = carried(fm)
             bad, new_entries = source_diff(cur, Xs_prev, snap)
@@ -339,8 +415,9 @@ def run_impl(h):
             fr = fresh_model(h, model, k)
             with gs.fast_pred_var(False):
                 fpost = fr(bcast(Xs0, B, 2))
-            obs.append(dict(B=B, mean=bcast(post.mean.detach(), B, 1), cov=bcast(post.covariance_matrix.detach(), B, 2),
-                            fmean=bcast(fpost.mean.detach(), B, 1), fcov=bcast(fpost.covariance_matrix.detach(), B, 2),
+            flat = lambda mu: mu.detach().reshape(mu.shape[:mu.dim() - 1 - len(tdim(h))] + (-1,))  # noqa: E731  (.., t, T) -> (.., tT)
+            obs.append(dict(B=B, mean=bcast(flat(post.mean), B, 1), cov=bcast(post.covariance_matrix.detach(), B, 2),
+                            fmean=bcast(flat(fpost.mean), B, 1), fcov=bcast(fpost.covariance_matrix.detach(), B, 2),
                             carried=car, source_bad=bad, source_new=new_entries,
                             train_inputs=[x.detach() for x in fm.train_inputs], train_targets=fm.train_targets.detach()))
             cur = fm
@@ -356,7 +433,14 @@ def prior_pieces(h, model):
     with torch.no_grad():
         KJ = model.covar_module(Xall).to_dense()
         mu = model.mean_module(Xall)
-        if h["lik"] == "gaussian":
+        if h["lik"] == "multitask":
+            # rows are (point, task), point-major (interleaved); specified noise of row (i, a) = task_noises[a] + noise
+            T = h["mt"]
+            mu = mu.reshape(mu.shape[:-2] + (-1,))
+            per_task = model.likelihood.task_noises.detach() + model.likelihood.noise.detach()      # b x T
+            S = bcast(per_task, B, 1).repeat(*([1] * len(B)), X.shape[-2])
+            y = y.reshape(y.shape[:-2] + (-1,))
+        elif h["lik"] == "gaussian":
             S = bcast(model.likelihood.noise.detach(), B, 1).expand(B + (X.shape[-2],))
         else:
             S = nz
@@ -380,8 +464,9 @@ def coq_case(h, KJ, mu, S, y):
     KJ = [[rq(v) for v in row] for row in KJ]
     mu = [rq(v) for v in mu]
     Sm = [[rq(S[i]) if i == j else 0 for j in range(N)] for i in range(N)]
+    T = ntask(h)                         # multitask: every point contributes T consecutive rows
     return "(%d%%nat, %s, %d%%nat, %s, %s, %s, %s)" % (
-        h["n0"], C.nat_list([s["m"] for s in h["steps"]]), h["t"], C.qc_mat(KJ), C.qc_vec(mu), C.qc_mat(Sm), C.qc_vec(y))
+        h["n0"] * T, C.nat_list([s["m"] * T for s in h["steps"]]), h["t"] * T, C.qc_mat(KJ), C.qc_vec(mu), C.qc_mat(Sm), C.qc_vec(y))
 
 
 def decode(h, r):
@@ -395,7 +480,8 @@ def decode(h, r):
             out.append(None)
             break
         n = rd.int()
-        out.append(dict(n=n, alpha=rd.qs(n), Ainv=rd.qmat(n, n), mean=rd.qs(h["t"]), cov=rd.qmat(h["t"], h["t"])))
+        tt = h["t"] * ntask(h)
+        out.append(dict(n=n, alpha=rd.qs(n), Ainv=rd.qmat(n, n), mean=rd.qs(tt), cov=rd.qmat(tt, tt)))
     return out
 
 
@@ -426,6 +512,7 @@ def compare(out, h, obs, models_by_elem, A_by_elem):
     tag = "%s:%s:%s:%s" % (h["kernel"], "b" + ("x".join(map(str, h["b"])) or "0"), h["lik"], flags)
     kfin = len(h["steps"])
     Bfin = tuple(h["steps"][-1]["tg_batch"])
+    tol = tol_of(h)
     for k, ob in enumerate(obs, 1):
         desc = dict(history=sub_history(h, k), depth=k)
         B = ob["B"]
@@ -440,7 +527,7 @@ def compare(out, h, obs, models_by_elem, A_by_elem):
             out.fail("fantasy-train-data:%s:%s" % (form, tag), "fantasy model's train_inputs/targets are not the concatenated data",
                      desc, impl=[list(tin.shape), list(ob["train_targets"].shape)], model=[list(Xspec.shape), list(yspec.shape)])
         # vs fresh ExactGP on the concatenated data
-        if not (torch.allclose(ob["mean"], ob["fmean"], rtol=TOL, atol=TOL) and torch.allclose(ob["cov"], ob["fcov"], rtol=TOL, atol=TOL)):
+        if not (torch.allclose(ob["mean"], ob["fmean"], rtol=tol, atol=tol) and torch.allclose(ob["cov"], ob["fcov"], rtol=tol, atol=tol)):
             out.fail("fresh-exactgp:%s:%s" % (form, tag), "fantasy model predictions differ from a fresh ExactGP on the concatenated data "
                      "(max |dmean| %.3g, max |dcov| %.3g)" % ((ob["mean"] - ob["fmean"]).abs().max().item(),
                                                              (ob["cov"] - ob["fcov"]).abs().max().item()),
@@ -455,18 +542,24 @@ def compare(out, h, obs, models_by_elem, A_by_elem):
             if mdl is None:
                 continue
             edesc = dict(desc, element=list(pidx))
-            if not mclose(ob["mean"][pidx], mdl["mean"]):
+            if not mclose(ob["mean"][pidx], mdl["mean"], tol):
                 out.fail("fantasy-mean:%s:%s" % (form, tag), "fantasy_model(x*).mean differs from the closed-form conditional on the concatenated data",
                          edesc, impl=ob["mean"][pidx], model=[float(v) for v in mdl["mean"]])
-            if not mclose(ob["cov"][pidx], mdl["cov"]):
+            if not mclose(ob["cov"][pidx], mdl["cov"], tol):
                 out.fail("fantasy-cov:%s:%s" % (form, tag), "fantasy_model(x*).covariance_matrix differs from the closed-form conditional on the concatenated data",
                          edesc, impl=ob["cov"][pidx], model=[[float(v) for v in r] for r in mdl["cov"]])
+            if h["kernel"] == "kiss_rbf":
+                continue        # WISKI carries interpolation-space caches (not A'^-1 r' / an inverse root): predictions only
             car = ob["carried"]
             n = mdl["n"]
             Ainv = torch.tensor([[float(v) for v in r] for r in mdl["Ainv"]])
             A = A_by_elem[idx][:n, :n]
             if car["mean_cache"] is None:
                 out.fail("carried-mean-cache-missing:%s" % tag, "fantasy strategy carries no mean_cache entry", edesc)
+            elif not can_bcast(car["mean_cache"], B, 1):
+                out.fail("carried-mean-cache-shape:%s:%s" % (form, tag), "carried mean_cache has shape %s, which does not broadcast to "
+                         "batch %s x %d training rows" % (tuple(car["mean_cache"].shape), B, n), edesc,
+                         impl=list(car["mean_cache"].shape), model=list(B) + [n])
             else:
                 mc = bcast(car["mean_cache"], B, 1)[pidx]
                 if not mclose(mc, mdl["alpha"]):
@@ -477,6 +570,10 @@ def compare(out, h, obs, models_by_elem, A_by_elem):
                                        ("root", A, "L L^T != A' for the carried root_decomposition")):
                 if car[name] is None:
                     out.fail("carried-%s-missing:%s" % (name, tag), "fantasy strategy carries no %s entry" % name, edesc)
+                    continue
+                if not can_bcast(car[name], B, 2):
+                    out.fail("carried-%s-shape:%s:%s" % (name, form, tag), "carried %s has shape %s, which does not broadcast to batch %s"
+                             % (name, tuple(car[name].shape), B), edesc, impl=list(car[name].shape), model=list(B) + [n, n])
                     continue
                 Rm = bcast(car[name], B, 2)[pidx]
                 if Rm.shape[-2] != n:
@@ -490,6 +587,15 @@ def compare(out, h, obs, models_by_elem, A_by_elem):
 
 # --------------------------------------------------------------------------- driver entry points
 
+def mt_class(h):
+    """input class of the recorded finding C04-multitask-fantasy-shapes (multitask histories only): some update adds
+    m >= 2 points or some batch dimension (model or fantasy) is present; the complement (single points, no batch) works"""
+    if not h.get("mt"):
+        return ""
+    batched = bool(h["b"]) or any(s["tg_batch"] for s in h["steps"])
+    return ":mt-multi-point-or-batch" if batched or any(s["m"] >= 2 for s in h["steps"]) else ":mt-single-point-unbatched"
+
+
 def evaluate(out, hs, tagname):
     """run implementation + model on the histories, compare"""
     impl, cases, index = [], [], []
@@ -498,7 +604,7 @@ def evaluate(out, hs, tagname):
             model, obs = run_impl(h)
         except Exception as e:
             impl.append(None)
-            out.fail("impl-exception:%s:%s:%s" % (type(e).__name__, "+".join(s["form"] for s in h["steps"]), h["lik"]),
+            out.fail("impl-exception:%s:%s:%s%s" % (type(e).__name__, "+".join(s["form"] for s in h["steps"]), h["lik"], mt_class(h)),
                      "implementation raised %r on a supported fantasy pattern" % (e,), dict(history=h, depth=len(h["steps"])))
             continue
         B, KJ, mu, S, y = prior_pieces(h, model)
@@ -525,11 +631,79 @@ def evaluate(out, hs, tagname):
     return impl
 
 
+def member_history(rng, tier):
+    """an unbatched single-output history with one plain update (a member of a model list)"""
+    while True:
+        h = gen_history(rng, tier)
+        if not h["b"] and not h["steps"][0]["tg_batch"]:
+            h["steps"] = h["steps"][:1]
+            return h
+
+
+def check_model_list(out, rng, tier, reps):
+    """IndependentModelList.get_fantasy_model (gpytorch/models/model_list.py:45-76): sub-model i of the result must be
+    the fantasy model of member i (same observations as member.get_fantasy_model and as a fresh ExactGP on the
+    concatenated data), per-member `noise` (None for members without fixed noise); the members stay untouched"""
+    for r in range(reps):
+        hs = [member_history(rng, tier) for _ in range(rng.choice([2, 3]))]
+        flags = list(rng.choice(FLAGSETS))
+        case = dict(kind="model-list", history=dict(members=hs, flags=flags), depth=1)
+        out.case(dict(kind="model-list", liks=[h["lik"] for h in hs], kernels=[h["kernel"] for h in hs], n0=[h["n0"] for h in hs],
+                      flags=flags, hseeds=[h["hseed"] for h in hs]), True, label="model-list")
+        tag = "model-list:%s:%s" % ("+".join(h["lik"] for h in hs), "+".join(sorted(flags)) or "default")
+        try:
+            built = [build(h) for h in hs]
+            ml = gpytorch.models.IndependentModelList(*[m for m, _ in built])
+            tests = [torch.tensor(h["Xs"]).reshape(h["t"], h["d"]) for h in hs]
+            with flag_ctx(flags):
+                ml(*tests)
+                snaps = [source_snapshot(m, xt) for (m, _), xt in zip(built, tests)]
+                st = [step_tensors(h, h["steps"][0]) for h in hs]
+                noise = [None if h["lik"] == "gaussian" else nz for h, (_, _, nz) in zip(hs, st)]
+                kw = {} if all(v is None for v in noise) else dict(noise=noise)
+                fml = ml.get_fantasy_model([X for X, _, _ in st], [y for _, y, _ in st], **kw)
+                posts = fml(*tests)
+                for i, (h, (m, _), xt, snap, (X, y, nz), post) in enumerate(zip(hs, built, tests, snaps, st, posts)):
+                    bad, _ = source_diff(m, xt, snap)
+                    for what, detail in bad:
+                        out.fail("source-%s:%s" % (what, tag), "IndependentModelList.get_fantasy_model changed member %d: %s %s"
+                                 % (i, what, detail), case)
+                    own = m.get_fantasy_model(X, y, **({} if h["lik"] == "gaussian" else dict(noise=nz)))(xt)
+                    fr = fresh_model(h, m, 1)
+                    with gs.fast_pred_var(False):
+                        fpost = fr(xt)
+                    for ref, name, tol in ((own, "member-fantasy", 1e-12), (fpost, "fresh-exactgp", TOL)):
+                        if not (torch.allclose(post.mean, ref.mean, rtol=tol, atol=tol)
+                                and torch.allclose(post.covariance_matrix, ref.covariance_matrix, rtol=tol, atol=tol)):
+                            out.fail("%s:%s" % (name, tag), "sub-model %d of the fantasy model list differs from %s (max |dmean| %.3g, "
+                                     "max |dcov| %.3g)" % (i, name, (post.mean - ref.mean).abs().max().item(),
+                                                           (post.covariance_matrix - ref.covariance_matrix).abs().max().item()),
+                                     case, impl=dict(mean=post.mean.detach(), cov=post.covariance_matrix.detach()),
+                                     model=dict(mean=ref.mean.detach(), cov=ref.covariance_matrix.detach()))
+        except Exception as e:
+            out.fail("impl-exception:%s:%s" % (type(e).__name__, tag), "IndependentModelList fantasy raised %r" % (e,), case)
+
+
+def simplify_mt(rng, tier):
+    """a multitask history without batch dimensions whose updates add one point each"""
+    while True:
+        h = gen_history(rng, tier, "mt")
+        if not h["b"] and all(s["m"] == 1 and not s["tg_batch"] for s in h["steps"]):
+            return h
+
+
 def run(out, ctx):
     tier, seed = ctx["tier"], ctx["seed"]
     rng = random.Random(seed * 104729 + 4)
     nh = 36 if tier == "quick" else 400
     hs = [gen_history(rng, tier) for _ in range(nh)]
+    # other strategies / likelihoods (own PRNG stream): multitask kernel + likelihood, KISS-GP (interpolated strategy, WISKI)
+    rng2 = random.Random(seed * 7919 + 41)
+    n_mt, n_kiss = (12, 6) if tier == "quick" else (120, 60)
+    mts = [gen_history(rng2, tier, "mt") for _ in range(n_mt)]
+    # make sure the class that works on the unchanged tree (single points, no batch) is present
+    mts[:3] = [simplify_mt(rng2, tier) for _ in range(3)]
+    hs += mts + [gen_history(rng2, tier, "kiss") for _ in range(n_kiss)]
     # grid part: every (model batch, first-step form, likelihood, flag set) combination appears at least once
     grid = []
     for b in ((), (2,)):
@@ -556,10 +730,13 @@ def run(out, ctx):
                 "batch form is drawn from {plain, own inputs, shared inputs with new fantasy batch dim, own inputs with new "
                 "fantasy batch dim, lower-dim inputs}, under {fast_pred_var} x {detach_test_caches}; plus a grid forcing every "
                 "(model batch, first form, likelihood, flags) combination; every final batch element is one Coq case; "
-                "non-trivial = n0>=2 or depth>=2" % (3 if tier == "quick" else 4))
+                "non-trivial = n0>=2 or depth>=2; plus multitask histories (MultitaskKernel rank 1 + MultitaskGaussianLikelihood, T=2, "
+                "rows = (point, task) interleaved, <= 3 points) and KISS-GP histories (GridInterpolationKernel, d=1, WISKI update; "
+                "predictions and source only, tol 1e-6); plus IndependentModelList.get_fantasy_model vs its members" % (3 if tier == "quick" else 4))
     out.extra["tolerances"] = {"all dense paths (abs+rel)": TOL, "source before/after": "bit-equal",
                                 "model inputs": "implementation's K, m, noise rounded to the dyadic grid 2^-44"}
-    evaluate(out, hs, "C04")
+    evaluate(out, hs, ctx.get("tag", "C04"))
+    check_model_list(out, rng2, tier, 6 if tier == "quick" else 60)
     for h in hs:
         for k in range(1, len(h["steps"]) + 1):
             out.case(dict(pattern=pattern(sub_history(h, k)), lik=h["lik"], flags=h["flags"], n0=h["n0"], kernel=h["kernel"], mean=h["mean"],
@@ -578,7 +755,22 @@ def replay(path):
     d = json.load(open(path))
     h = d["case"]["history"]
     out = C.Outcome("C04", "quick", 0)
-    evaluate(out, [h], "C04_replay")
+    if d["case"].get("kind") == "model-list":
+        class _Fixed:           # replays the stored member histories / flags
+            def __init__(self, seq):
+                self.seq = list(seq)
+
+            def choice(self, _):
+                return self.seq.pop(0)
+        global member_history
+        members, saved = list(h["members"]), member_history
+        member_history = lambda rng, tier: members.pop(0)   # noqa: E731
+        try:
+            check_model_list(out, _Fixed([len(members), tuple(h["flags"])]), "quick", 1)
+        finally:
+            member_history = saved
+    else:
+        evaluate(out, [h], "C04_replay")
     for f in out.failures:
         print("FAIL", f["key"], "-", f["what"])
         print("  impl :", C.jsonable(f.get("impl")))
